@@ -263,7 +263,7 @@ func replayC09(c *Check, sc *core.Scenario) []core.Violation {
 }
 
 func init() {
-	Register(&Check{ID: "C09", Level: "exploration", Sim: "K", Runs: map[string]int{"quick": 3000, "thorough": 120000},
+	Register(&Check{ID: "C09", Level: "exploration", Sim: "K", Runs: map[string]int{"quick": 3000, "thorough": 40000},
 		Rule: "2-4 tasks, each creating 1-2 instances from one library (built or GRB-loaded, possibly with a removed rule) and executing/fetching/removing on its own facts; the interleaving at every yield point (node-id draw inside Clone, hooked loop element, seam event) is drawn from a seeded scheduler with run-length styles {every yield, 70%, 95%, 99% stay}; distinct = hash of the (task, site) yield sequence; non-trivial = at least one context switch between tasks",
 		Assumptions: []string{"interleaving happens at seam and hook points, not between arbitrary instructions: a same-value race or an unsynchronised global that never changes a result is invisible to the simulation",
 			"per-task results are compared with the same script run alone on an identically built library; divergences from the reference model that already occur alone belong to other properties"},
